@@ -180,6 +180,12 @@ func pathsCover(opts []cat.Opts, q, t, faults int, tw ...func(*fam.Features)) co
 		}}
 }
 
+// allPathsOf: a small structured family explored without a view (every history replayed).
+func allPathsOf(name string, gen func(opts []cat.Opts, cb bool) []*cat.Catalog, opts []cat.Opts, inv int) coverPlan {
+	return coverPlan{name: name + "-all-paths", bounds: Bounds{MaxInv: inv, MaxFaults: 0, FaultKinds: errKinds, NoView: true},
+		cats: func(seed int64, tier string) []*cat.Catalog { return gen(opts, false) }}
+}
+
 // libGroupsCover: big value groups over declared functions, registrations in a fixed random order.
 func libGroupsCover(opts []cat.Opts, cb bool, q, t, faults int) coverPlan {
 	return coverPlan{name: "libgroups", bounds: Bounds{MaxInv: 1, MaxFaults: faults, FaultKinds: errKinds},
@@ -333,6 +339,7 @@ func init() {
 			covers: []coverPlan{
 				structCover("reenter", fam.Reenter, deferBoth, false, 12, 200, 1, 0),
 				structCover("groupcycle", fam.GroupCycle, deferBoth, false, 20, 150, 1, 0),
+				allPathsOf("deepcycle", fam.DeepCycle, deferBoth, 1),
 				pathsCover(deferBoth, 30, 400, 0),
 				digraphCover("digraphs-req", "req", deferBoth, 120, 2500),
 				digraphCover("digraphs-opt", "opt", deferBoth, 50, 1200),
@@ -539,6 +546,7 @@ func init() {
 			covers: []coverPlan{
 				randCover("orders", small, deferBoth, 40, 400, 0),
 				pathsCover(deferBoth, 30, 400, 0),
+				allPathsOf("deepcycle", fam.DeepCycle, deferBoth, 1),
 				randCover("orders-rejects", tweak(small, func(f *fam.Features) { f.PInvalid = 0.8; f.Types = 2; f.PNamed = 0.05 }), deferBoth, 30, 300, 0),
 				structCover("chain", fam.Chain, deferBoth, false, 50, 500, 2, 0),
 				structCover("groups", fam.Groups, deferBoth, false, 10, 40, 2, 0),
